@@ -8,6 +8,7 @@ let act_of k c =
   | ":ae" -> Some (AEnable (nat_tok (next c)))
   | ":ad" -> Some (ADisable (nat_tok (next c)))
   | ":az" -> Some AReset
+  | ":ab" -> Some (AReinstall (nat_tok (next c)))
   | _ -> None
 let act c = let k = next c in match act_of k c with Some a -> a | None -> raise (Bad ("action " ^ k))
 let xstmt c =
@@ -27,6 +28,7 @@ let op c =
   | ":dis" -> ODisable (nat_tok (next c))
   | ":rm" -> ORemove (n_tok (next c))
   | ":reset" -> OReset
+  | ":reinst" -> OReinstall (nat_tok (next c))
   | ":test" -> OTest (xtest c)
   | ":run" -> ORun (counted c xtest)
   | ":runner" -> let rep = nat_tok (next c) in ORunner (rep, counted c xtest)
@@ -39,7 +41,7 @@ let pitem = function
   | IChain ids -> String.concat " " ([":c"; string_of_int_hex (List.length ids)] @ List.map pnat ids)
 let run_line ts =
   let s = scenario ts in
-  if not (valid s) then raise (Bad "scenario is not valid (UT_PTR_SET without a pointer plugin that stays, an acting plugin named by another action, location/value out of range, ...)")
+  if not (valid s) then raise (Bad "scenario is not valid (UT_PTR_SET without a pointer plugin that stays, an acting plugin named by another action, a plugin object installed again while it is in the chain, location/value out of range, ...)")
   else match run s with [] -> ":none" | l -> String.concat " " (List.map pitem l)
 let item c =
   match next c with
